@@ -8,6 +8,7 @@ statement order of the source; observable events are appended to the monotone lo
 Time is in milliseconds. Packets put on the wire are the real encodings
 (`Paho.Model.Codec`), so byte counts under partial writes are the real ones.
 -/
+import Paho.Gen.Keepalive
 import Paho.Model.Codec
 import Paho.Model.Mid
 namespace Paho
@@ -552,8 +553,8 @@ def handleConnack (s : S) (sp : Bool) (result : Nat) (reconnectOk : Bool) : S ×
         | (s, .raised "ConnectionRefusedError") => (s.emit .onConnectFail, .rc rcConnLost)
         | r => r
     else
-      let s := if result = 0 then { s with cstate := (if s.cstate = .disconnecting then .disconnecting else .connected), reconnectDelay := none, ackd := true } else s
-      let s := { s with firstConnect := false }
+      -- (only a successful CONNACK ends the "first connect" of MQTT_CLEAN_START_FIRST_ONLY)
+      let s := if result = 0 then { s with cstate := (if s.cstate = .disconnecting then .disconnecting else .connected), reconnectDelay := none, ackd := true, firstConnect := false } else s
       let shown := if s.proto = 5 ∧ result = 1 then 132 else result
       let s := s.emit (.onConnect shown sp)
       if result = 0 then
